@@ -6,6 +6,7 @@ import (
 	"bytes"
 	"context"
 	"errors"
+	"io"
 	"path"
 	"sort"
 
@@ -52,6 +53,46 @@ type world struct {
 	// parks (waiting for data) after Create and after every Write - the usual schedule in
 	// practice; for the other keys it runs only when the writer blocks in Close
 	storerAhead map[string]bool
+	// mixAPIs: the history steps write through all three write APIs, chosen by actor and key (no
+	// extra paths): a transaction writes key a through Create+Write+Close and the other keys
+	// through SetReader; autocommit writes key a through Set and the other keys through Create
+	mixAPIs bool
+}
+
+// howFor: the write API a history step uses for (actor, key).
+func (w *world) howFor(t int, key string) int {
+	if !w.mixAPIs {
+		return 0
+	}
+	switch {
+	case t != 0 && key == "a":
+		return 2
+	case t != 0:
+		return 1
+	case key == "a":
+		return 0
+	}
+	return 2
+}
+
+// dataEOFReader hands out its data in one Read together with io.EOF (n > 0 and io.EOF in the
+// same call, which the io.Reader contract allows: HTTP bodies with a Content-Length do it).
+type dataEOFReader struct {
+	b    []byte
+	done bool
+}
+
+func (r *dataEOFReader) Read(p []byte) (int, error) {
+	if r.done {
+		return 0, io.EOF
+	}
+	n := copy(p, r.b)
+	r.b = r.b[n:]
+	if len(r.b) == 0 {
+		r.done = true
+		return n, io.EOF
+	}
+	return n, nil
 }
 
 type pendingOp struct {
@@ -190,7 +231,12 @@ func (w *world) doSet(t int, key string, val []byte, how int) error {
 	case 0:
 		err = st.Set(ctx, key, val)
 	case 1:
-		err = st.SetReader(ctx, key, bytes.NewReader(val))
+		if key == "a" {
+			err = st.SetReader(ctx, key, bytes.NewReader(val))
+		} else {
+			// the other keys are uploaded from a reader that returns its last bytes WITH io.EOF
+			err = st.SetReader(ctx, key, &dataEOFReader{b: val})
+		}
 	default:
 		f, cerr := st.Create(ctx, key)
 		if cerr != nil {
